@@ -151,12 +151,55 @@ def parse_chain(prog, fv, e, side, flip=False, out=None, problems=None):
     return out, problems
 
 
+def parse_early_returns(prog, fv, side, rdefs):
+    """The guard-clause spelling of a lexicographic comparator:
+        let by_x = a.x.cmp(&b.x); if by_x.is_ne() { return by_x; } ... last_step
+    Every definition of the return value but the last must sit under `that very ordering is not Equal`; the definitions are
+    taken in control-flow order and each is parsed like a chain element."""
+    from ..cfg import branches, flat_guards, guards_of
+    rend = Renderer(fv, depth=40, through_names=True)
+    brs = branches(fv, rend)
+    items = []
+    problems = []
+    for bi, si, st in rdefs:
+        e = rend.call_expr(st, 40, bi) if si == "t" else rend.rvalue(st["rv"], 40)
+        items.append((bi, e))
+    # control-flow order: along the chain every later definition sits behind strictly more decided branches
+    def depth_of(x):
+        return (sum(1 for br, l in guards_of(fv, x[0], brs)), sum(1 for b in fv.live if fv.dominates(b, x[0])))
+    def own_guard(x):
+        return any(g[0] == "call" and re.search(r"Ordering::is_(ne|eq)$", g[1]) and show(strip(g[2][0]), 400) == show(strip(x[1]), 400) for g, l, h in flat_guards(fv, x[0], brs))
+    items.sort(key=lambda x: (not own_guard(x)) * 10 ** 6 + depth_of(x)[0] * 1000 + depth_of(x)[1])
+    out = []
+    for i, (bi, e) in enumerate(items):
+        n0 = len(out)
+        parse_chain(prog, fv, e, side, False, out, problems)
+        if i == len(items) - 1:
+            continue
+        # guard: the returned ordering itself was tested to be non-Equal on the way here
+        ok = False
+        for g, labels, how in flat_guards(fv, bi, brs):
+            if g[0] == "call" and re.search(r"Ordering::is_(ne|eq)$", g[1]) and show(strip(g[2][0]), 400) == show(strip(e), 400):
+                ok = ok or (g[1].endswith("is_ne") == (labels == {"true"}))
+            if g[0] == "discr" and show(strip(g[1]), 400) == show(strip(e), 400) and "Equal" not in labels:
+                ok = True
+            if g[0] == "bin" and g[1] in ("Ne", "Eq") and show(strip(g[2]), 400) == show(strip(e), 400):
+                ok = ok or ((g[1] == "Ne") == (labels == {"true"}))
+        if not ok:
+            problems.append("early return of a comparator step (line %d) is not guarded by `that step is not Equal`" % fv.line(bi))
+    return out, problems
+
+
 def extract_order(prog, key):
     fv = FnView(prog, key)
     rend = Renderer(fv, depth=40)
     side = SideResolver(prog, fv)
     e = rend.local(0, 40)
-    steps, problems = parse_chain(prog, fv, e, side)
+    rdefs = [d for d in fv.defs().get(0, []) if d[0] in fv.live]
+    if len(rdefs) > 1:
+        steps, problems = parse_early_returns(prog, fv, side, rdefs)
+    else:
+        steps, problems = parse_chain(prog, fv, e, side)
     res = []
     for a, b, flip, sfv, sside, cmpname in steps:
         ra, rb = sside.roots(a), sside.roots(b)
@@ -603,49 +646,60 @@ def check_as_path_length(prog, r7, r8):
 
 
 def seg_table(prog, fv):
-    """Map segment-type switch value -> '+1' | '+count' | '0' by looking at which additions are
-    edge-dominated by each case of the switch on the segment type."""
+    """Map segment-type switch value -> '+1' | '+count' | '0': which increment of the hop accumulator each case of the
+    switch on the segment type leads to.  An increment is an addition `acc + x` whose result flows to the return value; `x`
+    is either written in the arm itself (`acc += 1` in one arm, `acc += n` in another) or computed per arm and added once
+    behind the match (`acc += match t { SET => 1, SEQ => n, _ => 0 }`): then each definition of `x` counts in its arm."""
     from ..cfg import branches as _br
     rend = Renderer(fv, depth=12)
     brs = _br(fv, rend)
-    # the switch whose case values are a subset of {1,2,3,4} with at least two of them
+
+    def kind_of_operand(o):
+        k = o.get("k")
+        if k is not None and isinstance(k.get("v"), int):
+            return "+1" if k["v"] == 1 else ("0" if k["v"] == 0 else "+%d" % k["v"])
+        return None
+
+    contrib = []      # (block, effect)
+    for b in sorted(fv.live):
+        for s in fv.blocks[b]["s"]:
+            rv = s.get("rv")
+            if not (rv and rv["r"] == "bin" and rv["op"].startswith("Add") and _is_acc(fv, rv, s)):
+                continue
+            acc = None
+            for o in (rv["a"], rv["b"]):
+                p = o.get("c") or o.get("m")
+                if p and not p.get("p") and p["l"] in fv.local_name and _flows_to_return(fv, p["l"]):
+                    acc = o
+            x = rv["b"] if acc is rv["a"] else rv["a"]
+            kc = kind_of_operand(x)
+            if kc is not None:
+                contrib.append((b, kc))
+                continue
+            p = x.get("c") or x.get("m")
+            ds = [d for d in fv.defs().get(p["l"], []) if d[0] in fv.live] if (p and not p.get("p")) else []
+            if len(ds) > 1:
+                for db, si, st in ds:
+                    kc = kind_of_operand(st["rv"]["o"]) if (si != "t" and st["rv"]["r"] == "use") else None
+                    contrib.append((db, kc or "+count"))
+            else:
+                contrib.append((b, "+count"))
     tab = {}
     for bi, br in brs.items():
         vals = [v for v, _ in br.cases]
         if not vals or not set(vals) <= {1, 2, 3, 4} or br.ty not in ("u8",):
             continue
+        def effect(edge, tgt):
+            effs = {e for b, e in contrib if b == tgt or fv.edge_guarded(b, {edge})}
+            effs.discard("0")
+            if not effs:
+                return "0"
+            return sorted(effs)[0] if len(effs) == 1 else "+".join(sorted(effs))
         for v, tgt in br.cases:
-            # blocks reachable only via this case edge (before the loop back-edge): additions there
-            region = fv.reach(tgt) - fv.reach(fv.entry, (), {(bi, v, tgt)})
-            region |= {tgt}
-            eff = "0"
-            for b in sorted(region):
-                if not fv.edge_guarded(b, {(bi, v, tgt)}) and b != tgt:
-                    continue
-                for s in fv.blocks[b]["s"]:
-                    rv = s.get("rv")
-                    if rv and rv["r"] == "bin" and rv["op"].startswith("Add"):
-                        ea, eb = rend.operand(rv["a"]), rend.operand(rv["b"])
-                        if eb[0] == "const" and eb[1] == 1 or ea[0] == "const" and ea[1] == 1:
-                            if _is_acc(fv, rv, s):
-                                eff = "+1"
-                        elif _is_acc(fv, rv, s):
-                            eff = "+count"
-            tab[str(v)] = eff
-        other = br.otherwise
-        # values not listed fall to `else`: record effect for the missing ones
+            tab[str(v)] = effect((bi, v, tgt), tgt)
         missing = {1, 2, 3, 4} - set(vals)
-        if missing:
-            eff = "0"
-            region = {b for b in fv.reach(other) if fv.edge_guarded(b, {(bi, "else", other)})} | {other}
-            for b in sorted(region):
-                for s in fv.blocks[b]["s"]:
-                    rv = s.get("rv")
-                    if rv and rv["r"] == "bin" and rv["op"].startswith("Add") and _is_acc(fv, rv, s):
-                        ea, eb = rend.operand(rv["a"]), rend.operand(rv["b"])
-                        eff = "+1" if (eb[0] == "const" and eb[1] == 1) or (ea[0] == "const" and ea[1] == 1) else "+count"
-            for m in missing:
-                tab[str(m)] = eff
+        for m in missing:
+            tab[str(m)] = effect((bi, "else", br.otherwise), br.otherwise)
         break
     return tab
 
